@@ -1718,11 +1718,9 @@ func ExecSelect(query *Query, current []any) ([]any, error) {
 		switch current := current.(type) {
 		case []any:
 			{
-				rs, err := ExecSelect(query, current)
-				if err != nil {
-					return nil, err
-				}
-				copy = append(copy, rs)
+				// an inner array of a multi-dimensional source has already been
+				// filtered and projected by its own execution
+				copy = append(copy, current)
 			}
 		case Map:
 			{
